@@ -362,3 +362,119 @@ def aliases(fn, name):
                     out |= {a, b}
                     changed = True
     return out
+
+
+# ------------------------------------------------------------------ local unrolling of loops / any() over literal tuples
+class View(object):
+    """A rewritten copy of a function that can be handed to the helpers expecting a FuncInfo."""
+
+    def __init__(self, fi, node):
+        self.node = node
+        self.module = fi.module
+        self.qualname = fi.qualname
+        self.params = fi.params
+        self.loc = fi.loc
+        self.cls = fi.cls
+        self.is_static = fi.is_static
+        self.original = fi
+
+
+def _literal_seq(e, env):
+    if isinstance(e, ast.Name) and e.id in env:
+        e = env[e.id]
+    if isinstance(e, (ast.Tuple, ast.List)) and e.elts and not any(isinstance(x, ast.Starred) for x in e.elts):
+        return list(e.elts)
+    return None
+
+
+def _bind_target(target, value):
+    """{name: expr} for binding a loop target to a literal element, or None."""
+    if isinstance(target, ast.Name):
+        return {target.id: value}
+    if isinstance(target, (ast.Tuple, ast.List)) and isinstance(value, (ast.Tuple, ast.List)) and len(target.elts) == len(value.elts):
+        out = {}
+        for t, v in zip(target.elts, value.elts):
+            b = _bind_target(t, v)
+            if b is None:
+                return None
+            out.update(b)
+        return out
+    return None
+
+
+class _Unroll(ast.NodeTransformer):
+    def __init__(self, env):
+        self.env = env
+
+    def visit_FunctionDef(self, node):
+        return node if getattr(self, '_inside', False) else self._top(node)
+
+    def _top(self, node):
+        self._inside = True
+        self.generic_visit(node)
+        return node
+
+    def visit_Lambda(self, node):
+        return node
+
+    def visit_For(self, node):
+        self.generic_visit(node)
+        seq = _literal_seq(node.iter, self.env)
+        if seq is None or node.orelse or any(isinstance(x, (ast.Break, ast.Continue)) for x in ast.walk(node)):
+            return node
+        out = []
+        for elt in seq:
+            b = _bind_target(node.target, elt)
+            if b is None:
+                return node
+            assigned = set()
+            for s in node.body:
+                assigned |= assigned_names(s)
+            if assigned & set(b):
+                return node
+            for s in node.body:
+                out.append(nf._Subst(b).visit(clone_stmt(s)))
+        return out
+
+    def visit_Call(self, node):
+        self.generic_visit(node)
+        if isinstance(node.func, ast.Name) and node.func.id in ('any', 'all') and len(node.args) == 1 and not node.keywords \
+                and isinstance(node.args[0], (ast.GeneratorExp, ast.ListComp)) and len(node.args[0].generators) == 1 \
+                and not node.args[0].generators[0].ifs:
+            g = node.args[0].generators[0]
+            seq = _literal_seq(g.iter, self.env)
+            if seq is not None:
+                vals = []
+                for elt in seq:
+                    b = _bind_target(g.target, elt)
+                    if b is None:
+                        return node
+                    vals.append(nf.subst(node.args[0].elt, b))
+                op = ast.Or() if node.func.id == 'any' else ast.And()
+                return ast.copy_location(ast.BoolOp(op=op, values=vals) if len(vals) > 1 else vals[0], node)
+        return node
+
+    def visit_Subscript(self, node):
+        self.generic_visit(node)
+        if isinstance(node.slice, ast.IfExp) and isinstance(node.ctx, ast.Load):
+            from ..index import clone
+            return ast.copy_location(ast.IfExp(test=node.slice.test,
+                                               body=ast.Subscript(value=clone(node.value), slice=node.slice.body, ctx=ast.Load()),
+                                               orelse=ast.Subscript(value=clone(node.value), slice=node.slice.orelse, ctx=ast.Load())), node)
+        return node
+
+
+def clone_stmt(s):
+    from ..index import clone
+    return clone(s)
+
+
+def unrolled(fi):
+    """View of the function with loops / any() / all() over literal tuples unrolled and `d[a if c else b]` distributed."""
+    from ..index import clone, set_parents
+    node = clone(fi.node)
+    env = {k: v for k, v in lib.local_env(node).items() if isinstance(v, (ast.Tuple, ast.List))}
+    new = _Unroll(env)._top(node)
+    ast.fix_missing_locations(new)
+    set_parents(new)
+    return View(fi, new)
